@@ -270,10 +270,29 @@ partial def dataOf : Sexp → P RVal
     pure (.obj tn (resolveFrom entries))
   | _ => fail "data"
 
-def reqOf : Sexp → P Impl.Request
+/-- a request; `(rawvars …)` instead of `(vars …)`: raw variable values, coerced here by
+`Concrete.coerceVariableValues` against the selected operation's variable definitions
+(second component: `false` = variable coercion failed, a request error) -/
+def reqOfS (s : Schema) : Sexp → P (Impl.Request × Bool)
   | .list [.atom "req", d, n, vs, data] => do
-    pure { doc := (← docOf d), opName := (← optName n), vars := (← varsOf vs), root := (← dataOf data) }
+    let doc ← docOf d
+    let opName ← optName n
+    let root ← dataOf data
+    match vs with
+    | .list (.atom "rawvars" :: kvs) =>
+      let raw ← kvs.mapM kvPyOf
+      let defs := match Spec.getOperation doc.ops opName with
+        | some op => op.vars
+        | none => []
+      match Concrete.coerceVariableValues s defs raw with
+      | some vars => pure ({ doc := doc, opName := opName, vars := vars, root := root }, true)
+      | none => pure ({ doc := doc, opName := opName, vars := [], root := root }, false)
+    | _ => pure ({ doc := doc, opName := opName, vars := (← varsOf vs), root := root }, true)
   | _ => fail "req"
+
+def reqOf (x : Sexp) : P Impl.Request := do
+  let (r, _) ← reqOfS default x
+  pure r
 
 
 partial def jsonOf : Sexp → P Json
